@@ -117,6 +117,10 @@ def static_classes(prog):
         if isinstance(n, ast.Try) and n.finalbody:
             if _own(n.finalbody, (ast.Raise,)) and _own(n.body + n.handlers + n.orelse, (ast.Return, ast.Break, ast.Continue)):
                 cls['raise_in_finally_over_jump'] = True
+    # (15) `del x` of a plain name is rewritten to `x = ag__.Undefined('x')` (variables.visit_Delete): deleting an
+    #      UNBOUND name no longer raises at the del statement
+    if any(isinstance(n, ast.Delete) and any(isinstance(t, ast.Name) for t in n.targets) for n in ast.walk(fn)):
+        cls['del_of_unbound_name_does_not_raise'] = True
     # (14) a class body inside the function reads a local of the function: its reads are in no node's Scope (liveness)
     assigned = set(x.id for x in ast.walk(fn) if isinstance(x, ast.Name) and isinstance(x.ctx, ast.Store)) | set(a.arg for a in fn.args.args)
     for n in ast.walk(fn):
@@ -190,6 +194,8 @@ def classify(prog, mod, args, dec, static, orig_outcome=None):
         return 'nonlocal_write_in_reaching_closure'
     if 'nested_fn_param_leaks_into_enclosing_bound' in static:
         return 'nested_fn_param_leaks_into_enclosing_bound'
+    if 'del_of_unbound_name_does_not_raise' in static and orig_outcome == ('exc', 'NameError'):
+        return 'del_of_unbound_name_does_not_raise'
     if 'augassign_value_reads_not_ld_wrapped' in static and orig_outcome == ('exc', 'NameError'):
         return 'augassign_value_reads_not_ld_wrapped'
     for k in ('read_in_class_body', 'namedexpr_in_call_argument', 'call_in_return_annotation_of_nested_def', 'lambda_in_decorator_of_nested_def',
